@@ -41,9 +41,16 @@ def find_roles(ctx):
                 nones = [p for p, v in consts.items() if v is None]
                 if zeros and nones:
                     D, call = g, s.node
-                    roles = {"budget": zeros[0], "root": nones[0]}
+                    roles = {"budget": zeros[0], "root": nones[0], "top_state": 0}
+                elif nones and D is None and any(g in r.callees for r in ctx.cg.sites(g)):
+                    # the self-recursive derivation entered with a constant state other than 0: roles are still
+                    # determined (C01/V0 reports the constant); with no integer constant at all there is no role
+                    ints = [p for p, v in consts.items() if isinstance(v, int) and not isinstance(v, bool)]
+                    if len(ints) == 1:
+                        D, call = g, s.node
+                        roles = {"budget": ints[0], "root": nones[0], "top_state": consts[ints[0]]}
     if D is None:
-        raise AnalysisError("derivation function not found: no call in decoder() passes a constant 0 and None")
+        raise AnalysisError("derivation function not found: no call in decoder() passes a constant state and None")
     # queue parameter: argument is a local of decoder bound to a fresh list, also passed to another callee
     pt = ctx.pt
     for k in call.keywords:
